@@ -23,7 +23,7 @@ ASSUMPTIONS = ["the precomputed matrix of the differential run is the very matri
 EVAL_COUNTER = "fits"
 REQUIRED = {"quick": {"fits": 400, "train_affinity_compared": 200, "score_affinity_compared": 200, "objective_class_checked": 350,
                       "differential_pairs": 100, "kernelrim_kernels_compared": 40, "kauri_kernels_compared": 15,
-                      "kernel_params_nonempty": 60, "missing_precomputed_refused": 20, "differential_paths": 8},
+                      "kernel_params_nonempty": 60, "missing_precomputed_refused": 10, "differential_paths": 5},
             "thorough": {"fits": 8000, "differential_pairs": 2000}}
 SHARD_TIMEOUT = {"quick": 1200, "thorough": 7000}
 
